@@ -35,11 +35,15 @@ CLAIMED = {
          'struct.unpack_from, clamping slices, four loops whose counts come from the data) are likewise re-translated on every run and proved to '
          'simulate the model parser: where the model returns a transaction the translated code returns the same one, where the model fails the '
          'translated code raises (buffers < 2^63 bytes; the kind of exception is not compared); hence parse(encode t) and re-encoding hold of the translated '
-         'pair. get_txid/get_wtxid and the object plumbing are tied by the correspondence run incl. the mainnet fixture transactions.',
+         'pair. get_txid / get_wtxid are translated too and proved equal to the model ids (reversed double-SHA256 of the stripped / full encoding). The object '
+         'plumbing is tied by the correspondence run incl. the mainnet fixture transactions.',
          NOTE_COMMON + 'SHA-256 is a parameter (driver instance checked against hashlib each run); translator semantics trusted.', 'Lean 4 proof over translated source (serialisation and parsing) + differential correspondence', '6/C01'),
  'C16': ('Kernel-checked theorems: size = length of the full serialisation, vsize = ceil((3*stripped + full)/4) for any witness structure, '
-         'legacy vsize = size; model in integer arithmetic, tied to get_size/get_vsize by the correspondence run (stacks of 0..300 items).',
-         NOTE_COMMON + 'binary64 quarter arithmetic exact below 2^51 (assumed, exercised).', 'Lean 4 proof (hand model) + differential correspondence', '6/C16'),
+         'legacy vsize = size; model in integer arithmetic. Tier T: get_size and get_vsize are re-translated from the working tree on every run (the '
+         'witness re-serialisation loop, the true division kept as an exact fraction, math.ceil) and proved to return what the model returns for every '
+         'transaction whose prefixed lengths are below 2^64; so size = length of the full serialisation and vsize = ceil((3*stripped + full)/4) are theorems '
+         'about the translated code. The generated functions are also run against the implementation (stacks of 0..300 items).',
+         NOTE_COMMON + 'binary64 quarter arithmetic exact below 2^51 (assumed in the translation of `/`, exercised).', 'Lean 4 proof over translated source + differential correspondence', '6/C16'),
  'C03': ('Kernel-checked theorem for every one-byte hash type, input index and transaction shape: the hand model of get_transaction_digest '
          '(with its temporaries: copy, blanked scriptSigs, NONE/SINGLE/ANYONECANPAY surgery) equals double-SHA256 of the Bitcoin Core '
          'SignatureHash preimage Spec; SINGLE without matching output is refused; the digest ignores existing scriptSigs. Tier T: '
